@@ -272,13 +272,60 @@ def drive_hms(ctx, value, ms):
                                     "exception": repr(exc)})
 
 
+def alphabet_sweep(ctx, rng):
+    """Every XML-legal code point (other than TAB/LF/CR, which have their own class) is put through the
+    monitors at least once, in a text that also holds the five special characters.  A rewrite that
+    borrows some legal character as an in-band stand-in (a private-use or 'unused' code point, a
+    replacement or object character, a non-character of the FDD0 block, a C1 control) makes the text
+    that contains that character read back differently - whichever character it picked.
+    quick tier: the whole BMP plus a per-seed sample of the supplementary planes; thorough: all of it
+    (shards take alternate chunks)."""
+    ranges = [(0x20, 0xD7FF), (0xE000, 0xFFFD)]
+    chunks = []
+    for lo, hi in ranges:
+        for start in range(lo, hi + 1, 64):
+            chunks.append((start, min(start + 63, hi)))
+    astral = [(start, start + 255) for start in range(0x10000, 0x110000, 256)]
+    if ctx.tier == "quick":
+        astral = rng.sample(astral, 400) + [(0xF0000, 0xF00FF), (0x10FF00, 0x10FFFF), (0xFFF00, 0xFFFFF),
+                                            (0x100000, 0x1000FF), (0xE0000, 0xE00FF)]
+    else:
+        astral = [c for i, c in enumerate(astral) if i % ctx.nshards == ctx.shard]
+    covered = 0
+    for lo, hi in chunks + astral:
+        body = "".join(chr(cp) for cp in range(lo, hi + 1))
+        text = "&<" + body + ">\"'&"
+        ctx.case(["escape:alphabet sweep (every legal code point next to the specials)"], ("sweep", lo, hi))
+        drive_escape(ctx, text)
+        covered += len(body)
+    ctx.extra["alphabet_sweep_code_points_covered"] = ctx.extra.get("alphabet_sweep_code_points_covered", 0) + covered
+    for s in SPECIALS:
+        for base in (0xF000, 0xE000, 0xFF00 - 0x20, 0x2400, 0xF0000, 0x100000):
+            ch = chr(base + ord(s))
+            ctx.case(["escape:stand-in candidate (special character shifted into another block)"], ("standin", ch))
+            drive_escape(ctx, "A" + ch + "B")
+            drive_escape(ctx, ch + s + ch)
+    for ch in ("\ufffd", "\ufffc", "\ufff9", "\ufdd0", "\ufdef", "\ue000", "\uf8ff", "\u0080", "\u009f", "\u007f",
+               "\U0010fffd", "\U000f0000", "\u2028", "\u2029", "\ufeff", "\u200b", "\u001f"[:0] or "\u0085"):
+        ctx.case(["escape:stand-in candidate (replacement / object / non-character / control)"], ("standin2", ch))
+        drive_escape(ctx, "x" + ch + "&" + ch + "<y>")
+
+
 def run(ctx):
+    from .. import wtests
+    wtests.run(ctx)
     install(ctx)
     rng = ctx.rng
+    alphabet_sweep(ctx, rng)
+    ctx.need("escape:alphabet sweep (every legal code point next to the specials)", 1300)
+    ctx.need("escape:stand-in candidate (special character shifted into another block)", 30)
     n = ctx.budget(25_000, 400_000)
     for _ in range(n):
         if not ctx.alive():
             break
+        if rng.random() < 0.01:
+            from .. import noise
+            noise.burst(ctx, rng, exclude=('text',))
         cls, text = gen_text(rng)
         if rng.random() < 0.02:
             # history: a call the caller gets wrong and survives (text with characters that are not
@@ -297,6 +344,9 @@ def run(ctx):
     for _ in range(m):
         if not ctx.alive():
             break
+        if rng.random() < 0.005:
+            from .. import noise
+            noise.burst(ctx, rng, exclude=('text',))
         cls, value, ms = gen_duration(rng)
         if rng.random() < 0.01:
             from plotink import text_utils as _tu
@@ -322,6 +372,7 @@ def run(ctx):
     ctx.need("monitor:read-back (double-quoted attribute)", 10_000)
     ctx.need("monitor:read-back (single-quoted attribute)", 10_000)
     ctx.need("monitor:format_hms evaluated", 30_000)
+    ctx.need("history: after calls to other library functions", 300)
     contracts.uninstall_all()
 
 
